@@ -30,7 +30,6 @@ Pitfalls met while building the oracle (library right, draft oracle wrong) are n
 """
 from __future__ import annotations
 
-import itertools
 import logging
 
 import numpy as np
@@ -586,7 +585,6 @@ def tiny_tri(rng, i):
     if i == 6:   # strip of anisotropic cells: longest edges form a chain, the closure runs along it
         return M.init_tensor(np.array([0., 1., 2., 3., 4.]), np.array([0., 0.375])), "strip-8"
     if i == 7:   # fan around an interior vertex, irregular radii
-        ang = np.array([0, 1, 2, 3, 4, 5, 6]) / 7.0
         px = np.array([1, .5, -.25, -1, -.75, .25, .75]) * 1.0
         py = np.array([0, .75, 1, .25, -.5, -1, -.5]) * 1.0
         p = np.vstack([np.concatenate([[0.], px]), np.concatenate([[0.], py])])
@@ -618,6 +616,36 @@ def tiny_tet(rng, i):
         return M(p, np.array([[0, 1, 2, 3], [1, 2, 3, 4]]).T), "two-tets-2"
     if i == 2:
         return M(), "unit-cube-5"
+    if i == 3:
+        return M.init_tensor(np.array([0., 1.]), np.array([0., .5]), np.array([0., 2.])), "tensor-brick-6"
+    if i == 4:   # edge shared by four tetrahedra (ring): bisection of that edge hits all of them
+        p = np.array([[0., 0, -1], [0, 0, 1], [1, 0, 0], [0, 1.25, 0], [-1.5, 0, 0], [0, -.75, 0]]).T
+        t = np.array([[0, 1, 2, 3], [0, 1, 3, 4], [0, 1, 4, 5], [0, 1, 5, 2]]).T
+        return M(p, t), "ring-4"
+    if i == 5:
+        return M.init_tensor(np.array([0., 1.]), np.array([0., 1.]), np.array([0., 1.])), "tensor-cube-6"
+    if i == 6:   # three well-shaped cells (quality 0.05-0.14) found by random search: bisecting cell 1 needs 26 > 8*3 cells
+        p = np.array([[0.1875, 0.3125, 0.375, 0.5, 0.6875],
+                      [0.5625, 0.5, 0.9375, 0.8125, 0.25],
+                      [0.8125, 0.8125, 0.6875, 0.9375, 0.]])
+        t = np.array([[1, 2, 4, 0], [1, 3, 2, 0], [1, 3, 2, 4]]).T
+        return M(p, t), "delaunay-deep-closure-3"
+    # seeded random Delaunay meshes with <= 8 cells (5-7 points of a 2^-4 .. 2^-6 lattice, quality floor 2^-9)
+    from scipy.spatial import Delaunay
+    for _ in range(200):
+        P = np.unique(G.dyadic(rng, (3, int(rng.integers(5, 8))), bits=int(rng.integers(4, 7))), axis=1)
+        if P.shape[1] < 5:
+            continue
+        try:
+            t = Delaunay(P.T).simplices.T.astype(np.int64)
+        except Exception:
+            continue
+        t = G.quality_filter(P, t, 2.0 ** -9)
+        if not 2 <= t.shape[1] <= 8:
+            continue
+        P2, t = G.clean(P, t)
+        return M(P2, t), "delaunay-%d" % t.shape[1]
+    return M(), "unit-cube-5"
     if i == 3:
         return M.init_tensor(np.array([0., 1.]), np.array([0., .5]), np.array([0., 2.])), "tensor-brick-6"
     if i == 4:   # edge shared by four tetrahedra (ring): bisection of that edge hits all of them
@@ -671,8 +699,8 @@ def tiny_line(rng, i):
     return ML(np.linspace(0, 1, 5)), "uniform-4"
 
 
-TINY = {"tri": (tiny_tri, 10), "tet": (tiny_tet, 6), "line": (tiny_line, 5)}
-NRANDOM_TINY = {"tri": 3, "tet": 3, "line": 4}      # totals 13 / 9 / 9: coprime to the 16 shards
+TINY = {"tri": (tiny_tri, 10), "tet": (tiny_tet, 7), "line": (tiny_line, 5)}
+NRANDOM_TINY = {"tri": 3, "tet": 4, "line": 4}      # totals 13 / 11 / 9: coprime to the 16 shards
 
 
 def renumbered(rng, mesh, kind):
@@ -730,11 +758,33 @@ def exhaustive_case(kind):
     return run
 
 
+def tet_buffer_overflow(e):
+    """Predicate of the recorded finding: NumPy refuses to store new cells / points / split edges because
+    the arrays MeshTet1._adaptive allocates up front (8 nt cells, 9 nv points, 8 nv edges) are full."""
+    import re
+    import traceback
+    if not isinstance(e, ValueError):
+        return False
+    if not re.search(r"could not broadcast input array from shape \(\d+,\d+\) into shape \(\d+,\d+\)", str(e)):
+        return False
+    frames = [f for f in traceback.extract_tb(e.__traceback__) if "/skfem/" in f.filename]
+    return bool(frames) and frames[-1].filename.endswith("mesh_tet_1.py") and frames[-1].name == "_adaptive"
+
+
 def one_step(ctx, mesh, marked, desc, rng, step=0, order_check=False, form=None, light=False):
     """Refine adaptively with `marked` (sorted unique int64 array) and judge the step."""
     par = Snap(mesh)
     arg = marked if form is None else form
-    child, records = call_refined(mesh, arg)
+    try:
+        child, records = call_refined(mesh, arg)
+    except ValueError as e:
+        if not tet_buffer_overflow(e):
+            raise
+        ctx.check("valid-mesh", False, mech="tet-adaptive-preallocated-buffers-overflow", case=desc,
+                  error=str(e), ncells=int(mesh.t.shape[1]), nverts=int(mesh.p.shape[1]), marked=marked,
+                  p=lambda: np.asarray(mesh.p)[:, :40], t=lambda: np.asarray(mesh.t)[:, :40])
+        ctx.reached("tet-adaptive-raised-on-full-buffers")
+        return None
     orc = check_step(ctx, par, child, np.asarray(marked, dtype=np.int64), records, desc, step=step, light=light)
     if order_check and marked.size >= 1:
         check_order_independence(ctx, mesh, marked, child, rng, desc)
@@ -838,7 +888,7 @@ def history_case(kind, order=1):
         mesh = mc.mesh
         if kind == "tet" and (mesh.t.shape[1] > 40 or k % 2 == 0):
             # long histories need a small start: one of the tiny meshes
-            mesh, name = tiny_tet(rng, int(rng.integers(0, 9)))
+            mesh, name = tiny_tet(rng, int(rng.integers(0, 11)))
             mc.desc = {"tiny": name}
         if order == 2:
             mesh = G.mesh_class(kind, 2).from_mesh(mesh)
@@ -847,7 +897,6 @@ def history_case(kind, order=1):
         if order == 2:
             cap = cap // 2
         nsteps = int(rng.integers(8, 13))
-        P0 = np.asarray(mesh.p)
         # a point singularity at a vertex / dyadic point of the domain
         v0 = np.asarray(mesh.p)[:, int(np.asarray(mesh.t)[0, rng.integers(mesh.t.shape[1])])].copy()
         trace = []
@@ -1049,7 +1098,7 @@ def theta_case(ctx, k):
 FAMILIES = [
     Family("exh-tri", exhaustive_case("tri"), quick=13, thorough=195, exhaustive=True,
            budget={"quick": 40, "thorough": 500}),
-    Family("exh-tet", exhaustive_case("tet"), quick=9, thorough=108, exhaustive=True,
+    Family("exh-tet", exhaustive_case("tet"), quick=11, thorough=121, exhaustive=True,
            budget={"quick": 40, "thorough": 500}),
     Family("exh-line", exhaustive_case("line"), quick=8, thorough=96, exhaustive=True,
            budget={"quick": 20, "thorough": 300}),
